@@ -142,7 +142,7 @@ def alphabet():
         ops.append(('rm ' + n, lambda t, n=n: t.delete(n)))
     for a, b in (('a', 'b'), ('b', 'a'), ('a.b', 'a0')):
         ops.append(('mv %s %s' % (a, b), lambda t, a=a, b=b: t.mv(a, b)))
-    for n, tg in (('a', 'x1'), ('a', 'x2'), ('b', 'x1')):
+    for n, tg in (('a', 'x1'), ('a', 'x2'), ('b', 'x1'), ('a', './x1'), ('a', 'x1/')):      # ./x1 and x1/ differ from x1 only in spelling: other link targets
         ops.append(('ln %s %s' % (n, tg), lambda t, n=n, tg=tg: t.ln(n, tg)))
     ops.append(('mkdir a', lambda t: t.mkdir('a')))
     ops.append(('w .git/HEAD 1', lambda t: t.wf('.git/HEAD', C1)))
